@@ -1,4 +1,5 @@
 """Criteria cases: JSON expression <-> real comparison objects (constructors and XML), environments, observation."""
+import json
 import warnings
 
 SPELL = {"eq": ["==", "eq"], "ne": ["!=", "neq"], "lt": ["<", "lt", "&lt;"], "gt": [">", "gt", "&gt;"],
@@ -158,27 +159,43 @@ def xml_ok(expr):
     return True
 
 
-def observe(kind, expr, env, cur, via="ctor", od=False):
-    """Evaluate with the real classes. Returns (obs, obsn)."""
+def build_eval(kind, expr, via="ctor", od=False):
     from space_packet_parser.xtce import comparisons
+    if kind == "cmp":
+        return obj_cmp(expr, via, od)
+    if kind == "cond":
+        return obj_cond(expr, via, od)
+    if kind == "bool":
+        return obj_bool(expr, via, od)
+    if kind == "list":
+        return [obj_cmp(c, via, od) for c in expr["items"]]
+    if kind == "lookup":
+        return [comparisons.DiscreteLookup([obj_cmp(c, via, od) for c in en["items"]], en["val"]) for en in expr["entries"]]
+    raise ValueError(kind)
+
+
+def observe(kind, expr, env, cur, via="ctor", od=False, shared=None):
+    """Evaluate with the real classes. Returns (obs, obsn).  shared: dict keeping ONE evaluator object per (expression, route)."""
     pkt = packet_of(env)
     curv = py_plain(cur) if cur["t"] != "none" else None
     with warnings.catch_warnings():
         warnings.simplefilter("ignore")
         try:
-            if kind == "cmp":
-                r = obj_cmp(expr, via, od).evaluate(pkt, curv)
-            elif kind == "cond":
-                r = obj_cond(expr, via, od).evaluate(pkt, curv)
-            elif kind == "bool":
-                r = obj_bool(expr, via, od).evaluate(pkt, curv)
+            if shared is not None:
+                key = (kind, json.dumps(expr, sort_keys=True), via, od)
+                ev = shared.get(key)
+                if ev is None:
+                    ev = shared[key] = build_eval(kind, expr, via, od)
+            else:
+                ev = build_eval(kind, expr, via, od)
+            if kind in ("cmp", "cond", "bool"):
+                r = ev.evaluate(pkt, curv)
             elif kind == "list":
-                r = all(obj_cmp(c, via, od).evaluate(pkt, curv) for c in expr["items"])
+                r = all(c.evaluate(pkt, curv) for c in ev)
                 if r is not True and r is not False:
                     r = bool(r)
             elif kind == "lookup":
-                for en in expr["entries"]:
-                    dl = comparisons.DiscreteLookup([obj_cmp(c, via, od) for c in en["items"]], en["val"])
+                for dl in ev:
                     v = dl.evaluate(pkt, curv)
                     if v is not None:
                         return "V", int(v)
